@@ -45,7 +45,7 @@ Proof. exact tck_bufsize_ok. Qed.
 Print Assumptions C16_buffer_size_adjusted.
 
 (* ---- TCK round trip, exact (bit patterns), any tractogram of non-empty streamlines without an
-   all-NaN point, any header fields that are plain "key: value" text, any buffer size: what save
+   all-NaN or all-inf point (the others are refused), any header fields that are plain "key: value" text, any buffer size: what save
    writes is header ++ data and load returns the streamlines, same number, same order *)
 Theorem C16_tck_roundtrip : forall count0 items sl b,
   0 <= count0 < 10 ^ 10 -> zlen sl < 10 ^ 10 -> wf_items items -> Forall wf_stream sl -> 0 <= b ->
@@ -54,6 +54,15 @@ Theorem C16_tck_roundtrip : forall count0 items sl b,
               /\ tck_load b f = Ok sl.
 Proof. exact tck_file_roundtrip'. Qed.
 Print Assumptions C16_tck_roundtrip.
+
+(* ... and a streamline with a point that is all NaN (the delimiter of the format) or all infinite
+   (its end-of-file marker) is refused by TckFile.save (DataError) instead of being written as a
+   file that cannot be read back as the same data (repair of S-C08b) *)
+Theorem C16_tck_save_refuses_delimiter_points : forall count0 items sl h0,
+  tck_header count0 items = Ok h0 ->
+  existsb (existsb (fun t => nan3 t || inf3 t)) sl = true -> tck_save count0 items sl = Err EBadPoint.
+Proof. exact tck_save_refuses. Qed.
+Print Assumptions C16_tck_save_refuses_delimiter_points.
 
 (* ---- TRK round trip (structure): for any header layout satisfying wf_offs (in particular the
    imported one, C16_tables_wf), any position of the file object, any tractogram of non-empty
@@ -185,7 +194,7 @@ Qed.
 (* ---- non-vacuity: concrete non-trivial instances meet the hypotheses *)
 Example C16_tck_nonvacuous :
   let items := [([99; 111; 109; 109; 101; 110; 116], [104; 105; 32; 116; 104; 101; 114; 101])] in
-  let sl := [[(1065353216, 2143289345, 4286578688); (0, 2147483648, 1)]; [(2139095040, 2139095040, 2139095040)]] in
+  let sl := [[(1065353216, 2143289345, 4286578688); (0, 2147483648, 1)]; [(2139095040, 7, 2139095040)]] in
   wf_items items /\ Forall wf_stream sl /\ (exists h0, tck_header 7 items = Ok h0)
   /\ (forall b, 0 <= b -> exists f h, tck_header (zlen sl) items = Ok h /\ tck_save 7 items sl = Ok f
                                   /\ f = h ++ tck_data sl /\ tck_load b f = Ok sl).
@@ -193,7 +202,7 @@ Proof.
   cbv zeta.
   assert (W : wf_items [([99; 111; 109; 109; 101; 110; 116], [104; 105; 32; 116; 104; 101; 114; 101])]).
   { unfold wf_items. vm_compute kept. constructor; [|constructor]. split; clean_lit. }
-  assert (S : Forall wf_stream [[(1065353216, 2143289345, 4286578688); (0, 2147483648, 1)]; [(2139095040, 2139095040, 2139095040)]]).
+  assert (S : Forall wf_stream [[(1065353216, 2143289345, 4286578688); (0, 2147483648, 1)]; [(2139095040, 7, 2139095040)]]).
   { repeat constructor; try discriminate; cbn; lia. }
   assert (H0 : exists h0, tck_header 7 [([99; 111; 109; 109; 101; 110; 116], [104; 105; 32; 116; 104; 101; 114; 101])] = Ok h0).
   { eexists. vm_compute. reflexivity. }
